@@ -31,7 +31,7 @@ def plan(tier, seed):
 def make_set(rng, tier):
     prof = gen.profile(modules=(1, 4), nodes=(1, 4), scalars=(1, 5), tables=(1, 3), notifs=(0, 3),
                        groups=(1, 3), syntax='trivial',
-                       features=['traps', 'compliance', 'compliance_objects'],
+                       features=['split_imports', 'traps', 'compliance', 'compliance_objects'],
                        max_cols=8, max_idx=4, max_list=rng.choice([3, 6, 12]),
                        p_hyphen=rng.choice([0.0, 0.3, 0.6]), p_foreign_index=rng.choice([0.2, 0.5]),
                        p_foreign_member=rng.choice([0.2, 0.5]), p_augments=0.3, p_implied=0.4)
